@@ -194,7 +194,7 @@ func (e *Engine) verifyFunc(f *ssa.Function) *FnRun {
 	}
 	st := &State{run: r, regs: map[ssa.Value]*V{}, cells: map[*ssa.Alloc]*V{}, heap: map[string]string{}, ghost: map[string]string{},
 		lets: map[string]*V{}, params: map[string]*V{}, callOrd: map[string]int{}, nonNil: map[string]bool{}, iterSeen: map[int]string{},
-		guardSeen: map[string]bool{}, ghostParams: map[string]*V{}, wcache: map[string][]wentry{}, mapAx: map[string]bool{}, allocRefs: map[string]bool{}, deferStacks: [][]*deferRec{nil}}
+		guardSeen: map[string]bool{}, ghostParams: map[string]*V{}, wcache: map[string][]wentry{}, mapAx: map[string]bool{}, famEpoch: map[string]int{}, allocRefs: map[string]bool{}, deferStacks: [][]*deferRec{nil}}
 	st.stack = []*ssa.Function{f}
 	a0 := mangle("alloc@0")
 	r.declare(a0, "Int")
